@@ -563,17 +563,27 @@ pub fn burst(args: &[String]) {
                     std::hint::spin_loop();
                 }
                 let id = (r * threads + w) as u32 + 1;
-                let h = BlindPool::insert(&pool, PB::new(id));
+                // a panic of the code under test must not strand the rendezvous: it is counted and the round goes on
+                let pool2 = pool.clone();
+                let h = vrt::catch(move || BlindPool::insert(&pool2, PB::new(id))).ok();
                 arrived.fetch_add(1, Ordering::SeqCst);
                 while phase.load(Ordering::SeqCst) < 3 * r + 3 {
+                    if phase.load(Ordering::SeqCst) == usize::MAX {
+                        return;
+                    }
                     std::thread::yield_now();
                 }
-                let (got, ok) = h.deref().check();
-                if got == id && ok {
-                    intact.fetch_add(1, Ordering::SeqCst);
-                }
-                drop(h);
-                drop(pool);
+                let intact2 = intact.clone();
+                let _ = vrt::catch(move || {
+                    if let Some(h) = h {
+                        let (got, ok) = h.deref().check();
+                        if got == id && ok {
+                            intact2.fetch_add(1, Ordering::SeqCst);
+                        }
+                        drop(h);
+                    }
+                    drop(pool);
+                });
                 arrived.fetch_add(1, Ordering::SeqCst);
             }
         }));
@@ -582,29 +592,41 @@ pub fn burst(args: &[String]) {
         if t0.elapsed() > budget {
             break;
         }
+        let mut stuck = false;
         let pool = BlindPool::new();
         *slot.lock().unwrap() = Some(pool.clone());
         arrived.store(0, Ordering::SeqCst);
         intact.store(0, Ordering::SeqCst);
         BURST_DTORS.store(0, Ordering::SeqCst);
         phase.store(3 * r + 1, Ordering::SeqCst);
-        while arrived.load(Ordering::SeqCst) < threads {
+        let wait0 = std::time::Instant::now();
+        while arrived.load(Ordering::SeqCst) < threads && wait0.elapsed().as_secs() < 8 {
             std::thread::yield_now();
         }
+        stuck |= arrived.load(Ordering::SeqCst) < threads;
         phase.store(3 * r + 2, Ordering::SeqCst);
-        while arrived.load(Ordering::SeqCst) < 2 * threads {
+        let wait0 = std::time::Instant::now();
+        while arrived.load(Ordering::SeqCst) < 2 * threads && wait0.elapsed().as_secs() < 8 {
             std::thread::yield_now();
         }
-        let len = pool.len();
+        stuck |= arrived.load(Ordering::SeqCst) < 2 * threads;
+        let len = vrt::catch(|| pool.len()).unwrap_or(usize::MAX >> 40);
         let early = BURST_DTORS.load(Ordering::SeqCst);
         phase.store(3 * r + 3, Ordering::SeqCst);
-        while arrived.load(Ordering::SeqCst) < 3 * threads {
+        let wait0 = std::time::Instant::now();
+        while arrived.load(Ordering::SeqCst) < 3 * threads && wait0.elapsed().as_secs() < 8 {
             std::thread::yield_now();
         }
-        let after = pool.len();
+        stuck |= arrived.load(Ordering::SeqCst) < 3 * threads;
+        let after = vrt::catch(|| pool.len()).unwrap_or(usize::MAX >> 40);
         let dtors = BURST_DTORS.load(Ordering::SeqCst);
-        tr.emit(&json!({"ev":"burst","n":threads,"len":len,"early":early,"intact":intact.load(Ordering::SeqCst),"after":after,"dtors":dtors,"round":r}));
+        tr.emit(&json!({"ev":"burst","n":threads,"len":len,"early":early,"intact":intact.load(Ordering::SeqCst),"after":after,"dtors":dtors,"round":r,"stuck":stuck}));
         *slot.lock().unwrap() = None;
+        if stuck {
+            // a thread hangs inside the code under test: the round is recorded (and rejected); leave without joining
+            tr.flush();
+            std::process::exit(0);
+        }
     }
     phase.store(usize::MAX, Ordering::SeqCst);
     for h in hs {
